@@ -182,7 +182,7 @@ static inline size_t carquet_buffer_reader_remaining(const carquet_buffer_reader
  * Check if reader has at least n bytes remaining.
  */
 static inline bool carquet_buffer_reader_has(const carquet_buffer_reader_t* reader, size_t n) {
-    return reader->pos + n <= reader->size;
+    return n <= reader->size - reader->pos;  /* pos <= size; pos + n could wrap around */
 }
 
 /**
